@@ -60,7 +60,7 @@ func (o *Options) ServerOptions() []string {
 	if o.PreserveGid() {
 		argstr += "g"
 	}
-	if o.PreserveDevices() {
+	if o.PreserveDevices() && o.PreserveSpecials() {
 		argstr += "D"
 	}
 	if o.PreserveMTimes() {
@@ -100,6 +100,14 @@ func (o *Options) ServerOptions() []string {
 
 	if argstr != "-" {
 		sargv = append(sargv, argstr)
+	}
+
+	// -D stands for --devices --specials;
+	// send the long option if only one of the two is enabled.
+	if o.PreserveDevices() && !o.PreserveSpecials() {
+		sargv = append(sargv, "--devices")
+	} else if o.PreserveSpecials() && !o.PreserveDevices() {
+		sargv = append(sargv, "--specials")
 	}
 
 	// if (block_size) {
